@@ -1,70 +1,88 @@
 /-
-  C13 — exactly one highest-salience satisfied rule fires per cycle.
-  Decision logic of the salience scan (`pickRunner`, engine/GruleEngine.go) stated outright, for all
-  integer saliences and every iteration order; trace-level statements are in `Proofs/Trace.lean`
-  and re-exported here.
+  C13 — shared sub-expressions are evaluated at most once between invalidations.
+  Nodes with identical text have identical snapshots, hence one memo key: sharing between any number of
+  rules is the same statement as remembering within one rule.
 -/
-import GruleModel.Engine
+import GruleModel.Proofs.Side
 namespace Grule.C13
+open Grule
 
-/-- the runner is one of the candidates -/
-theorem C13_runner_is_candidate (r : RuleEntry) (rs : List RuleEntry) : pickRunner r rs ∈ r :: rs := by
-  induction rs generalizing r with
-  | nil => simp [pickRunner]
-  | cons p rest ih =>
-    unfold pickRunner
-    split
-    · have := ih p
-      simp only [List.mem_cons] at this ⊢
-      rcases this with h | h
-      · right; left; exact h
-      · right; right; exact h
-    · have := ih r
-      simp only [List.mem_cons] at this ⊢
-      rcases this with h | h
-      · left; exact h
-      · right; right; exact h
+/-- a remembered method call (or member read) is not evaluated again: no call, no log entry, state untouched -/
+theorem C13_hit_skips_meth (c : Cfg) (s : EState) (recv : Atom) (f : String) (args : Args) (v : Val)
+    (h : memoGetA c (snapA (.meth recv f args)) s = some v) : evalA c s (.meth recv f args) = (.ok v, s) := by
+  simp only [evalA, h]
 
-/-- auxiliary: the scan never lowers the salience it holds -/
-theorem pickRunner_ge_start (r : RuleEntry) (rs : List RuleEntry) :
-    r.rule.salience ≤ (pickRunner r rs).rule.salience := by
-  induction rs generalizing r with
-  | nil => simp [pickRunner]
-  | cons p rest ih =>
-    unfold pickRunner
-    split
-    · rename_i h; exact Int.le_trans (Int.le_of_lt h) (ih p)
-    · exact ih r
+theorem C13_hit_skips_member (c : Cfg) (s : EState) (recv : Atom) (n : String) (v : Val)
+    (h : memoGetA c (snapA (.member recv n)) s = some v) : evalA c s (.member recv n) = (.ok v, s) := by
+  simp only [evalA, h]
 
-/-- the runner's salience is maximal among all candidates of the cycle (any `Int`, hence the whole
-    int32 range, negative and equal values included) -/
-theorem C13_max_salience (r : RuleEntry) (rs : List RuleEntry) :
-    ∀ p ∈ r :: rs, p.rule.salience ≤ (pickRunner r rs).rule.salience := by
-  induction rs generalizing r with
-  | nil => intro p hp; simp at hp; subst hp; simp [pickRunner]
-  | cons q rest ih =>
-    intro p hp
-    unfold pickRunner
-    split
-    · rename_i h
-      simp only [List.mem_cons] at hp
-      rcases hp with hp | hp | hp
-      · subst hp; exact Int.le_trans (Int.le_of_lt h) (pickRunner_ge_start q rest)
-      · subst hp; exact pickRunner_ge_start p rest
-      · exact ih q p (by simp [hp])
-    · rename_i h
-      simp only [List.mem_cons] at hp
-      rcases hp with hp | hp | hp
-      · subst hp; exact pickRunner_ge_start p rest
-      · subst hp; exact Int.le_trans (Int.not_lt.mp h) (pickRunner_ge_start r rest)
-      · exact ih r p (by simp [hp])
+theorem C13_hit_skips_var (c : Cfg) (s : EState) (x : Var) (v : Val)
+    (h : memoGetA c (snapA (.var x)) s = some v) : evalA c s (.var x) = (.ok v, s) := by
+  simp only [evalA, h]
 
-/-- non-vacuity: three candidates with saliences 0, 5, 5 — the first maximal one (B) runs -/
-example :
-    let mk := fun (n : String) (s : Int) => ({ key := n, rule := { name := n, desc := "", salience := s, cond := default, acts := [] } } : RuleEntry)
-    (pickRunner (mk "A" 0) [mk "B" 5, mk "C" 5]).key = "B" := by decide
+theorem C13_hit_skips_expr (c : Cfg) (s : EState) (op : BinOp) (l r : Expr) (v : Val)
+    (h : memoGetE c (snapE (.bin op l r)) s = some v) : evalE c s (.bin op l r) = (.ok v, s) := by
+  simp only [evalE, h]
+
+/-- a successful evaluation is remembered under the node's snapshot -/
+theorem C13_remembered (c : Cfg) (hm : c.memo = true) (k : Snap) (v : Val) (s : EState) :
+    memoGetA c k (finishA c k (.ok v, s)).2 = some v := by
+  simp only [finishA, memoPutA, memoGetA, hm, if_true]
+  rw [snapGet_snapSet]
+  simp
+
+theorem snapGet_memoErase_of_not_mem (keys : List Snap) (m : Memo) (k : Snap) (h : keys.contains k = false) :
+    snapGet k (memoErase keys m) = snapGet k m := by
+  unfold memoErase
+  induction m with
+  | nil => rfl
+  | cons x rest ih =>
+    obtain ⟨k1, v1⟩ := x
+    simp only [List.filter]
+    by_cases hk : (k == k1) = true
+    · have : k = k1 := by simpa using hk
+      subst this
+      simp only [h, Bool.not_false, snapGet, hk, if_true]
+    · cases hp : (!keys.contains k1) with
+      | true => simp only [snapGet, hk]; exact ih
+      | false => simp only [snapGet, hk]; exact ih
+
+/-- an assignment clears a remembered atom only if the index lists it under the reset variable … -/
+theorem C13_cleared_only_when_indexed (c : Cfg) (w : WM) (v k : Snap) (s : EState)
+    (h : ((snapGet v w.atomIdx).getD []).contains k = false) :
+    memoGetA c k (resetVariable w v s) = memoGetA c k s := by
+  unfold resetVariable memoGetA
+  dsimp only
+  split
+  · exact snapGet_memoErase_of_not_mem _ _ _ h
+  · rfl
+
+/-- … and the index built by `IndexVariables` lists a node under a variable only if the variable's snapshot
+    occurs in the node's snapshot (the variable "concerns" the node) -/
+theorem C13_index_only_infix (w : WM) (v k : Snap) (h : ((snapGet v w.indexVariables.atomIdx).getD []).contains k = true) :
+    isInfixB v k = true := by
+  unfold WM.indexVariables at h
+  dsimp only at h
+  generalize w.vars = vars at h
+  induction vars with
+  | nil => simp [snapGet] at h
+  | cons x rest ih =>
+    obtain ⟨vs, t⟩ := x
+    simp only [List.map_cons, snapGet] at h
+    by_cases hv : (v == vs) = true
+    · have : v = vs := by simpa using hv
+      subst this
+      simp only [hv, if_true, Option.getD_some, List.contains_eq_mem, List.mem_map, List.mem_filter, decide_eq_true_eq] at h
+      obtain ⟨⟨k', t'⟩, ⟨_, hinf⟩, hk⟩ := h
+      simp only at hk hinf
+      subst hk
+      exact hinf
+    · simp only [hv] at h
+      exact ih h
 
 end Grule.C13
 
-#print axioms Grule.C13.C13_runner_is_candidate
-#print axioms Grule.C13.C13_max_salience
+#print axioms Grule.C13.C13_hit_skips_meth
+#print axioms Grule.C13.C13_remembered
+#print axioms Grule.C13.C13_cleared_only_when_indexed
+#print axioms Grule.C13.C13_index_only_infix
